@@ -14,7 +14,7 @@ CONSTANTS
   MixinP = {"props"}
   DerivedP = {"props", "bare", "none"}
   DerivedC = {"method"}
-  DerivedM = {"bare"}
+  DerivedM = {}
   MaxOverrides = 1
   MaxRoots = 2
 CONSTRAINT GBound
